@@ -42,6 +42,14 @@ CHECKS = {
                      "method, no proposal, TS unacceptable): every record at INFO or above and everything written to "
                      "stderr is searched for every secret the harness knows (PSK, SKEYSEED recomputed independently, "
                      "SK_*, CHILD keys, DH secrets) raw, hex and repr; a verbose run proves the scanner finds each kind."),
+    'C13': dict(level='fault_enumeration', technique="exhaustive enumeration of loss patterns, tick sequences and crash "
+                "points over deterministic runs of the two real daemons under a virtual clock", engine='world-explorer',
+                text="Every request kind (14, incl. COOKIE / INVALID_KE retries and the delete after an IKE rekey) x every "
+                     "subset of lost request transmissions x every subset of lost replies under 1-second and coarse "
+                     "ticks: byte-identical retransmissions, non-decreasing spacing, bounded count, give-up with "
+                     "teardown, never re-sent once answered; DPD probe timing against the last authentic input with "
+                     "peer traffic at every tick offset; IKE lifetime / rekey / delete timing at both jitter extremes "
+                     "with answering, silent and colliding peers; peer crash after every step of a reference session."),
 }
 
 # filled in as checks are built; anything in ALL but not in CHECKS is listed under not_applicable
